@@ -48,6 +48,9 @@ pub fn distinct_cards(w: &[u32]) -> Option<Vec<Card>> {
 }
 
 pub fn judge(case: &Case) -> Verdict {
+    if case.kind.starts_with("history.") {
+        return super::history::judge(case);
+    }
     let w = case.w32s();
     if w.len() != 5 {
         return Verdict::NotJudged("C01 cases have five words".into());
@@ -143,7 +146,7 @@ pub fn run(ctx: &Ctx, rep: &mut Report) {
                                 }
                             }
                             if !found {
-                                monitor::machinery_fail("C01 fast path mismatch not reproduced by the slow path");
+                                super::unreproduced("C01 fast path mismatch not reproduced by the slow path");
                             }
                         }
                     }
@@ -171,7 +174,9 @@ pub fn run(ctx: &Ctx, rep: &mut Report) {
         let surj = (1..=7462).all(|v| observed[v].load(Relaxed) > 0) && distinct_obs == 7462;
         rep.guard("observed values are exactly 1..=7462", surj, format!("{} distinct values observed", distinct_obs));
     }
+    // call sequences: a hidden memo / cache would answer every single input correctly and fail after a predecessor
+    super::history::space(rep, 5, false, ctx.tier.thorough());
     rep.rule = "every five-card subset of the deck (oracle deck order) in every one of the 120 slot orders, through every five-card entry point; distinct = distinct ordered arrays, all of which are in the property's domain (each reaches a table cell through its own pre-image)".into();
-    rep.bound = "none: the property's whole domain is enumerated".into();
+    rep.bound = "inputs: none, the property's whole domain is enumerated. Histories: every input is also ranked right after a confusable predecessor (depth-2 call sequences over a 14-card sub-deck); longer histories are outside".into();
     rep.assume("the rule-derived class order (oracle::poker) is the standard poker strength order; self-checked against the textbook class and hand counts");
 }
